@@ -1,9 +1,125 @@
-(* C02 - bounded queue: no lost wakeup, no deadlock.  Only statements. *)
+(* C02 - bounded queue: a blocked push/pop is always woken (no lost wakeup, no deadlock).
+   Only statements; proofs are `exact <lemma of BQ/BQProofs.v>`.  Reach k progs s = "s is reachable from the initial state of
+   the queue of capacity 2^k with client programs `progs` under SOME schedule (list of thread ids, clock ticks included)":
+   every theorem is quantified over all schedules, all capacities, all thread counts and all client programs mixing push,
+   pop, try_push, try_pop, push_n, pop_n, try_push_n, try_pop_n and the timed exclusive pop with any template flags.
+
+   What is proved (all schedules, all programs - not even usage_ok is needed for these):
+     c02_sleeper_not_forgotten   a thread asleep in futex_wait on a slot always has the waiter bit of that slot set or a
+                                 wake_all for that slot pending (the 3-step window waiter-CAS / waker-store / waker-load
+                                 never leaves a sleeper behind a cleared bit)
+     c02_single_waker_wakes      the exchange waker that finds the bit set issues wake_all
+     c02_batch_waker_*           the batch waker (16-bit stores; seq_cst fence; load; CAS; wake_all) that finds the bit set
+                                 on its own version CASes it away, and a successful CAS issues wake_all
+     c02_wake_releases_all       wake_all releases every sleeper of the slot
+     c02_unparked_threads_enabled / c02_timed_wait_released_by_clock / c02_clock_can_advance
+                                 nothing but futex_wait can block a thread; a timed sleeper is released by the clock
+     c02_wake_tests_match_waiter_bit  the three `<= UINT16_MAX` tests and the `+ UINT16_MAX + 1` of the source are exactly
+                                 "waiter bit clear" / "set waiter bit" for every 16-bit version (regenerated expressions)
+     c02_memory_order_obligations  release exchange, acquire/release/seq_cst fences of the batch paths are in the source
+   PARTIAL (stated below as c02_no_lost_wakeup_statement / c02_no_deadlock_statement, not proved): the combined form
+   "a sleeper whose slot already shows the version it waits for has a waker on its way" needs, beyond the lemmas above,
+   usage_ok (the publisher of that version is a USE_FUTEX_WAKE op) - its pieces are the theorems above; global
+   deadlock-freedom of balanced programs and the step to termination under a fair scheduler are not mechanised.  Both
+   statements are checked at every run by exhaustive exploration of the extracted model on the small programs (model
+   deadlocks must be exactly the ones the program structure explains) and by the deadlock detector on the implementation. *)
 From Coq Require Import ZArith List Bool.
 Require Import Verif.Gen.Gen_bounded_queue Verif.Conc.Machine Verif.BQ.BQModel Verif.BQ.BQProofs.
 Import ListNotations.
 Local Open Scope Z_scope.
 
+Theorem c02_sleeper_not_forgotten : forall k progs s, Reach k progs s ->
+  forall u thu j sl, nth_error (threads s) u = Some thu -> tpc thu = WParked j sl ->
+  wf (get_slot s sl) = true \/
+  exists v thv, nth_error (threads s) v = Some thv /\ (tpc thv = PubWake sl \/ exists j', tpc thv = WkWake j' sl).
+Proof. exact bq_sleeper_not_forgotten. Qed.
+Print Assumptions c02_sleeper_not_forgotten.
+
+Theorem c02_single_waker_wakes : forall s t th o j s', nth_error (threads s) t = Some th -> nth_error (prog th) (opi th) = Some o ->
+  tpc th = Pub j -> is_single o = true -> fwake (oflags o) = true -> wf (get_slot s (seg_slot s o (lc th) j)) = true ->
+  step s t = Some s' ->
+  exists th', nth_error (threads s') t = Some th' /\ tpc th' = PubWake (seg_slot s o (lc th) j).
+Proof. exact bq_xchg_waker. Qed.
+Print Assumptions c02_single_waker_wakes.
+
+Theorem c02_batch_waker_load_sees_waiter : forall s t th o j s', nth_error (threads s) t = Some th ->
+  nth_error (prog th) (opi th) = Some o -> tpc th = WkLoad j -> wf (get_slot s (seg_slot s o (lc th) j)) = true ->
+  ver (get_slot s (seg_slot s o (lc th) j)) = wake_ver (okind o) (seg_ever s o (lc th)) ->
+  step s t = Some s' ->
+  exists th', nth_error (threads s') t = Some th' /\ tpc th' = WkCas j (ver (get_slot s (seg_slot s o (lc th) j))).
+Proof. exact bq_batch_waker_load. Qed.
+Print Assumptions c02_batch_waker_load_sees_waiter.
+
+Theorem c02_batch_waker_cas_wakes : forall s t th o j cur s', nth_error (threads s) t = Some th ->
+  nth_error (prog th) (opi th) = Some o -> tpc th = WkCas j cur -> wf (get_slot s (seg_slot s o (lc th) j)) = true ->
+  ver (get_slot s (seg_slot s o (lc th) j)) = cur -> step s t = Some s' ->
+  exists th', nth_error (threads s') t = Some th' /\ tpc th' = WkWake j (seg_slot s o (lc th) j).
+Proof. exact bq_batch_waker_cas. Qed.
+Print Assumptions c02_batch_waker_cas_wakes.
+
+Theorem c02_wake_releases_all : forall s t th s' sl, nth_error (threads s) t = Some th ->
+  (tpc th = PubWake sl \/ exists j, tpc th = WkWake j sl) -> step s t = Some s' ->
+  forall u thu j, nth_error (threads s') u = Some thu -> tpc thu <> WParked j sl.
+Proof. exact bq_wake_releases. Qed.
+Print Assumptions c02_wake_releases_all.
+
+Theorem c02_unparked_threads_enabled : forall s t th, nth_error (threads s) t = Some th -> thread_done th = false ->
+  (forall j sl, tpc th <> WParked j sl) -> step s t <> None.
+Proof. exact bq_unparked_enabled. Qed.
+Print Assumptions c02_unparked_threads_enabled.
+
+Theorem c02_timed_wait_released_by_clock : forall s t th o j sl, nth_error (threads s) t = Some th ->
+  nth_error (prog th) (opi th) = Some o -> tpc th = WParked j sl -> is_timed o = true -> dl (lc th) <= clock s ->
+  step s t <> None.
+Proof. exact bq_timed_released. Qed.
+Print Assumptions c02_timed_wait_released_by_clock.
+
+Theorem c02_clock_can_advance : forall s, step s (length (threads s)) <> None.
+Proof. exact bq_clock_enabled. Qed.
+Print Assumptions c02_clock_can_advance.
+
+Theorem c02_wake_tests_match_waiter_bit : forall v w,
+  block_no_waiter (word16 v w) = negb w /\ xchg_no_waiter (word16 v w) = negb w /\ wakeup_no_waiter (word16 v w) = negb w /\
+  block_no_waiter (block_wait_word (word16 v false)) = false.
+Proof. exact (fun v w => conj (word16_flag v w) (conj (word16_flag_x v w) (conj (word16_flag_w v w) (word16_set_waiter v)))). Qed.
+Print Assumptions c02_wake_tests_match_waiter_bit.
+
+Theorem c02_timeout_refresh : forall b e d, block_elapsed b e = e - b /\ block_expired d = (d <=? 0).
+Proof. exact bq_timeout_refresh. Qed.
+Print Assumptions c02_timeout_refresh.
+
 Theorem c02_memory_order_obligations : orders_ok = true.
 Proof. exact bq_orders_ok. Qed.
 Print Assumptions c02_memory_order_obligations.
+
+(* ---- full-strength statements that are NOT proved (see header): kept visible, checked by exploration + monitors ---- *)
+Definition waits_for (s : st) (th : thread) (sl : nat) (x : Z) : Prop :=
+  exists o j, nth_error (prog th) (opi th) = Some o /\ tpc th = WParked j sl /\ wait_target s o (lc th) j = (sl, x).
+Definition waker_on_its_way (s : st) (sl : nat) : Prop :=
+  exists v thv o, nth_error (threads s) v = Some thv /\ nth_error (prog thv) (opi thv) = Some o /\
+    (tpc thv = PubWake sl \/ (exists j, tpc thv = WkWake j sl) \/
+     (fwake (oflags o) = true /\ is_single o = false /\
+      exists j j', seg_slot s o (lc thv) j = sl /\
+        (tpc thv = FenceSC \/ (tpc thv = Pub j' /\ (j < j')%nat) \/ (tpc thv = WkLoad j' /\ (j' <= j)%nat) \/
+         exists c, tpc thv = WkCas j c))).
+Definition c02_no_lost_wakeup_statement : Prop := forall k progs s, usage_ok k progs = true -> Reach k progs s ->
+  forall u thu sl x, nth_error (threads s) u = Some thu -> waits_for s thu sl x -> ver (get_slot s sl) = x ->
+  waker_on_its_way s sl.
+Definition balanced (progs : list (list op)) : Prop :=
+  fold_right Nat.add 0%nat (map onum (side_ops true (all_ops progs))) =
+  fold_right Nat.add 0%nat (map onum (side_ops false (all_ops progs))).
+Definition blocking_only (progs : list (list op)) : Prop :=
+  Forall (fun o => okind o = KSingle \/ okind o = KBatch) (all_ops progs).
+Definition one_sided_threads (progs : list (list op)) : Prop :=
+  Forall (fun p => side_ops true p = [] \/ side_ops false p = []) progs.
+Definition c02_no_deadlock_statement : Prop := forall k progs s, usage_ok k progs = true -> balanced progs ->
+  blocking_only progs -> one_sided_threads progs -> Reach k progs s -> all_done s = false ->
+  exists t, (t < length (threads s))%nat /\ step s t <> None.
+
+(* non-vacuity: a usage_ok program; a reachable state with a sleeper and a pending wake; a run that finishes *)
+Example c02_usage_example : usage_ok 1 [[OPush f111 1; OPushN f111 [2; 3]]; [OPop f111; OPopN f111 2]] = true.
+Proof. exact bq_usage_example. Qed.
+Example c02_reach_example :
+  exists s, Reach 0 [[OPush f111 1]; [OPop f111]] s /\ existsb parked_b (threads s) = true /\
+            existsb wake_pending_b (threads s) = true /\ err s = false.
+Proof. exact bq_reach_example. Qed.
